@@ -7,6 +7,7 @@ require (
 	github.com/pion/logging v0.2.4
 	github.com/pion/stun/v3 v3.1.7
 	github.com/pion/transport/v4 v4.1.0
+	github.com/pion/turn/v5 v5.0.13
 )
 
 require (
@@ -14,7 +15,6 @@ require (
 	github.com/pion/dtls/v3 v3.1.5 // indirect
 	github.com/pion/mdns/v2 v2.1.0 // indirect
 	github.com/pion/randutil v0.1.0 // indirect
-	github.com/pion/turn/v5 v5.0.13 // indirect
 	github.com/wlynxg/anet v0.0.5 // indirect
 	golang.org/x/crypto v0.48.0 // indirect
 	golang.org/x/net v0.49.0 // indirect
